@@ -873,3 +873,83 @@ UNITS.append(
         opts={"callee": False},
     )
 )
+
+
+# ---- get_measurement (C20): tabulated at the grid, linear in between (real and imaginary parts separately), clamped ----
+# np.interp(x, xp, fp) is an assumed contract (DESIGN 3.2): for strictly increasing xp it is the piecewise-linear
+# interpolant of (xp, fp), constant outside [xp[0], xp[-1]].  What is proved: get_measurement hands the requested
+# frequency, the result's own grid and the requested quantity to it - real and imaginary parts separately for complex
+# quantities - and returns that value.
+
+
+def _gm_setup(kind):
+    def setup(eng, st, fid, genv):
+        import z3
+        from pyvc import values as V
+        from pyvc.heap import ObjV
+
+        n = eng.fresh("nf", "int")
+        st.assume(V.cmp(">=", n, 1))
+        f = eng.fresh_array("grid", (n,), "real")
+        q = z3.Int("gq")
+        st.fact(z3.ForAll([q], z3.Implies(z3.And(q >= 0, q + 1 < n.t), f.uf(q) < f.uf(q + 1))))
+        tgt = eng.fresh_array("quantity", (n,), kind)
+        ref = eng.alloc(st, ObjV("SpectrumResult#plain", {"f": eng.alloc(st, f), "QTY": eng.alloc(st, tgt)}))
+        eng.setvar(st, fid, "self", ref)
+        fr = eng.fresh("freq", "real")
+        eng.setvar(st, fid, "freq", fr)
+        eng.setvar(st, fid, "which", "QTY")
+        genv.update(n=n, GRID=f, QTY=tgt, freq=fr)
+
+    return setup
+
+
+_GM_ENS = {
+    "C20.tabulated_value_at_a_grid_frequency": "forall(0, n, lambda j: implies(freq == GRID[j], result == QTY[j]))",
+    "C20.clamped_below_and_above": "implies(freq <= GRID[0], result == QTY[0]) and implies(freq >= GRID[n - 1], result == QTY[n - 1])",
+    "C20.linear_in_between": "forall(0, n - 1, lambda j: implies(GRID[j] <= freq and freq <= GRID[j + 1], result == QTY[j] + (freq - GRID[j]) * (QTY[j + 1] - QTY[j]) / (GRID[j + 1] - GRID[j])))",
+}
+for _k in ("real", "cx"):
+    UNITS.append(
+        Unit(
+            id=f"analysis.SpectrumResult.get_measurement[{'complex' if _k == 'cx' else 'real'} quantity]",
+            module=M,
+            func="SpectrumResult.get_measurement",
+            props=["C20"],
+            setup=_gm_setup(_k),
+            ensures=_GM_ENS,
+            raises={},
+            opts={"callee": False},
+        )
+    )
+
+_install_gm = install
+
+
+def install(eng):  # noqa: F811
+    _install_gm(eng)
+    import z3
+    from pyvc import values as V
+    from pyvc.heap import Builtin, ArrV
+    from pyvc.values import Sym, Unsupported
+
+    def interp(eng_, st, x, xp, fp):
+        x, xp, fp = eng_.deref(st, x), eng_.deref(st, xp), eng_.deref(st, fp)
+        if isinstance(x, ArrV) and x.shape == ():
+            x = x.fn(())
+        if isinstance(x, ArrV) or not (isinstance(xp, ArrV) and isinstance(fp, ArrV) and len(xp.shape) == 1):
+            raise Unsupported("np.interp: only a scalar abscissa on 1-D tables is modelled")
+        real = eng_.cur_state
+        n = xp.shape[0]
+        r = eng_.fresh("interp", "real")
+        xt, nt = V.real_term(x), V.int_term(n)
+        j = z3.Int("ij")
+        xj = lambda i: V.real_term(xp.fn((Sym(i, "int"),)))
+        fj = lambda i: V.real_term(fp.fn((Sym(i, "int"),)))
+        real.fact(z3.Implies(xt <= xj(z3.IntVal(0)), r.t == fj(z3.IntVal(0))))
+        real.fact(z3.Implies(xt >= xj(nt - 1), r.t == fj(nt - 1)))
+        real.fact(z3.ForAll([j], z3.Implies(z3.And(j >= 0, j + 1 < nt, xj(j) <= xt, xt <= xj(j + 1)), r.t == fj(j) + (xt - xj(j)) * (fj(j + 1) - fj(j)) / (xj(j + 1) - xj(j))), patterns=[xj(j)]))
+        eng_.trusted.add("np.interp(x, xp, fp) for strictly increasing xp: the piecewise-linear interpolant, constant outside [xp[0], xp[-1]] (assumed)")
+        return r
+
+    eng.builtins["__modules__"]["numpy"].attrs["interp"] = Builtin("numpy.interp", interp, True)
